@@ -17,6 +17,7 @@ import AnyVecModel.Proofs.KernelCopyBytes
 import AnyVecModel.Props.Refine
 namespace AnyVec
 namespace C01
+variable {bg : Nat → Option VecSt}
 open World
 
 /-- The erased copy routine (`crate::copy_bytes`) is a memmove whichever of its three branches
@@ -307,15 +308,33 @@ overwrite; out-of-range calls change nothing). The abstract side refuses a value
 (`Spec.Room`: with `len < capacity` nothing is refused and the capacity stays), grows only when full and never on a
 fixed storage, and capacity requests never touch the items. -/
 theorem history_refines_vec (cfg : Cfg) (v ty : Nat) (ops : List Refine.VOp) (w : World) (s : Refine.Spec)
-    (h : Refine.Rel v ty w s) (hall : ∀ op ∈ ops, op.Allowed s.fixed) :
-    ∃ s', Refine.Spec.Steps s ops s' ∧ Refine.Rel v ty (Refine.runOps cfg v ty w ops) s' :=
+    (h : Refine.Rel bg v ty w s) (hall : ∀ op ∈ ops, op.Allowed s.fixed) :
+    ∃ s', Refine.Spec.Steps s ops s' ∧ Refine.Rel bg v ty (Refine.runOps cfg v ty w ops) s' :=
   Refine.history_refines cfg v ty ops w s h hall
 
 /-- … starting from wherever a history of core operations under arbitrary fault injection has led -/
 theorem reachable_worlds_are_related (cfg : Cfg) (w : World) (hr : Hist.Reach cfg w) (hf : w.fault = none) (v : Nat)
     (d : VecSt) (hv : w.vecs[v]? = some d) (hl : d.live = true) :
-    ∃ items, Refine.Rel v d.ty w ⟨items, w.created, d.cap, !VecSt.resizable d.bk⟩ :=
+    ∃ items, Refine.Rel (fun u => w.vecs[u]?) v d.ty w ⟨items, w.created, d.cap, !VecSt.resizable d.bk⟩ :=
   Refine.rel_of_reach cfg w hr hf v d hv hl
+
+/-- … and touches no other vector: after any history on `v` every other vector of the world is what it was -/
+theorem other_vectors_untouched (cfg : Cfg) (v ty : Nat) (ops : List Refine.VOp) (w : World) (s : Refine.Spec)
+    (h : Refine.Rel bg v ty w s) (hall : ∀ op ∈ ops, op.Allowed s.fixed) (u : Nat) (hu : u ≠ v) :
+    (Refine.runOps cfg v ty w ops).vecs[u]? = w.vecs[u]? :=
+  Refine.history_frame cfg v ty ops w s h hall u hu
+
+/-- **C01 from any reachable situation**: any world reachable by any history of core operations under any fault
+injection, any live vector in it, any sequence of element-wise / range / capacity operations on it: the sequence behaves
+like the same sequence on an abstract `Vec` starting with the items and capacity the vector shows, and no other vector
+changes -/
+theorem reachable_history_refines (cfg : Cfg) (w : World) (hr : Hist.Reach cfg w) (hf : w.fault = none) (v : Nat)
+    (d : VecSt) (hv : w.vecs[v]? = some d) (hl : d.live = true) (ops : List Refine.VOp)
+    (hall : ∀ op ∈ ops, op.Allowed (!VecSt.resizable d.bk)) :
+    ∃ items s', Refine.Spec.Steps ⟨items, w.created, d.cap, !VecSt.resizable d.bk⟩ ops s' ∧
+      Refine.Rel (fun u => w.vecs[u]?) v d.ty (Refine.runOps cfg v d.ty w ops) s' ∧
+      ∀ u, u ≠ v → (Refine.runOps cfg v d.ty w ops).vecs[u]? = w.vecs[u]? :=
+  Refine.reachable_history_refines cfg w hr hf v d hv hl ops hall
 
 end C01
 end AnyVec
